@@ -92,7 +92,7 @@ class Engine:
         self.concrete_inputs = None       # dict name -> value: all-concrete mode
         self.randcalls = 0
         self.fp_uses = []                 # (divisor, lo, hi) float-division lemma uses
-        self.fp_range = (-(1 << 20), 1 << 20)
+        self.fp_range = (-4096, 4096)
         self.observations = []
         self.reached = {}
         self.violations = []
@@ -103,6 +103,7 @@ class Engine:
         self.stubs = {}
         self.hooks = {}                   # harness-level hooks
         self.lazy_pkgs = set()            # packages whose __init__ is only run on demand
+        self.range_cap = None
         self.qcache = {}
         self.pc_hash = 0
         self.pc_refs = []
@@ -1496,6 +1497,8 @@ class Engine:
             if kind is None:
                 raise Unsupported(f"slice of {type(o).__name__}")
             lo, hi = self.slice_bounds(e.slice, len(seq))
+            if isinstance(o, str):
+                return o[lo:hi]
             r = seq[lo:hi]
             if kind == "bytes":
                 return self.mk_bytes(r, o.mutable, o.kind)
@@ -1522,6 +1525,8 @@ class Engine:
                 return o
             self.throw("TypeError", f"'{type(o).__name__}' object is not subscriptable")
         i = self.index_of(idx, len(seq))
+        if isinstance(o, str):
+            return o[i]
         r = seq[i]
         return Str([r]) if kind == "str" else r
 
